@@ -36,7 +36,7 @@ Fdefs(v, k, x) ==
 RpcX(v, k, hs, x) == [name |-> "M", verb |-> v, fields |-> FieldsFor(v, x), fdefs |-> Fdefs(v, k, x),
                   pathVars |-> <<"p">>,
                   query |-> <<[field |-> "q", name |-> "q", required |-> FALSE], [field |-> "rq", name |-> "rq", required |-> TRUE]>>,
-                  hdrs |-> hs]
+                  hdrs |-> hs, group |-> "", ord |-> 0]
 Rpc(v, k, hs) == RpcX(v, k, hs, FALSE)
 ZeroOf(r) == [i \in DOMAIN r.fields |-> [k |-> r.fields[i], v |-> "Z_" \o r.fields[i]]]
 
@@ -90,7 +90,7 @@ RpcShape(v, k, qs, ps) ==
   IN [name |-> "M", verb |-> v, fields |-> [i \in DOMAIN fds |-> fds[i].name], fdefs |-> fds, pathVars |-> <<"p">>,
       query |-> <<[field |-> "q", name |-> "q", required |-> FALSE], [field |-> "rq", name |-> "rq", required |-> TRUE]>>
                 \o (IF qs = "oneof" THEN <<[field |-> "alt", name |-> "alt", required |-> FALSE]>> ELSE <<>>),
-      hdrs |-> <<>>]
+      hdrs |-> <<>>, group |-> "", ord |-> 0]
 UrlX(pc_, qc, rqc, qs) == Url(pc_, qc, rqc) \o (IF qs = "oneof" THEN <<[field |-> "alt", loc |-> "query", cls |-> "absent", tok |-> "U_alt"]>> ELSE <<>>)
 C02ShapeRequests ==
   { Mk(RpcShape(v, "int32", qs, "one"), <<>>, UrlX("good", b, "good", qs), Body(sh, ct), <<>>, OkHandler, NoHook) :
@@ -129,6 +129,32 @@ C09TypeRequests ==
        GoodUrl, Body(sh, "json"), <<>>, OkHandler, NoHook) :
       v \in {"GET", "POST"}, ta \in HTypesAll, ca \in HClsAll, cb \in {"ok", "nonutf8"}, sh \in {"others", "malformed"} }
 
+\* several methods of ONE service (group): n service-level headers, the first method declares one more
+\* whose name sorts before / between / after the service's, or re-declares a service header with
+\* another type; the later methods declare none.  Every method is asked with all of its headers in
+\* place, with the service's last header missing, and (first method) with its own header missing.
+GroupSizes == {1, 2, 3, 4, 5}
+GroupPos   == {"first", "middle", "last", "redeclare"}
+SvcHdrs(n) == [i \in 1..n |-> Hdr("x-k" \o ToString(i), "svc", TRUE, "string", "")]
+OwnHdr(pos) == CASE pos = "first" -> Hdr("a-own", "method", TRUE, "integer", "")
+                 [] pos = "middle" -> Hdr("x-k1m", "method", TRUE, "integer", "")
+                 [] pos = "last" -> Hdr("z-own", "method", TRUE, "integer", "")
+                 [] pos = "redeclare" -> Hdr("x-k1", "method", TRUE, "integer", "")
+GroupRpc(n, pos, o) ==
+  [Rpc("GET", "string", SvcHdrs(n) \o (IF o = 1 THEN <<OwnHdr(pos)>> ELSE <<>>))
+     EXCEPT !.group = "N" \o ToString(n) \o "P" \o pos, !.ord = o]
+GroupVals(n, pos, o, miss) ==
+  LET hs == GroupRpc(n, pos, o).hdrs
+      \* one value per distinct name (a re-declared name appears twice among the declarations)
+      keep == SelectSeq([i \in DOMAIN hs |-> [lname |-> hs[i].lname, cls |-> "ok", lvl |-> hs[i].level]],
+                        LAMBDA x : x.lname # miss /\ ~(x.lvl = "svc" /\ \E j \in DOMAIN hs : hs[j].level = "method" /\ hs[j].lname = x.lname))
+  IN [i \in DOMAIN keep |-> [lname |-> keep[i].lname, cls |-> "ok"]]
+GroupCase(n, pos, o, miss) ==
+  Mk(GroupRpc(n, pos, o), GroupVals(n, pos, o, miss), GoodUrl, Body("absent", "json"), <<>>, OkHandler, NoHook)
+C09GroupRequests ==
+  UNION { { GroupCase(n, pos, o, miss) : miss \in {"", "x-k" \o ToString(n), OwnHdr(pos).lname} } :
+          n \in GroupSizes, pos \in GroupPos, o \in 1..3 }
+
 (***************************************************************************)
 (* C10: error source x content type x hook behaviour                       *)
 (***************************************************************************)
@@ -162,7 +188,7 @@ C11Requests ==
   { Mk(Rpc(v, "int32", <<>>), <<>>, GoodUrl, Body(sh, ct), <<>>, OkHandler, NoHook) :
       v \in Verbs, sh \in {"absent", "empty", "emptyobj", "others", "malformed"}, ct \in {"json", "proto", "octet", "none", "other"} }
 
-Requests == CASE Family = "C02" -> C02Requests \cup C02ShapeRequests [] Family = "C09" -> C09Requests \cup C09TypeRequests
+Requests == CASE Family = "C02" -> C02Requests \cup C02ShapeRequests [] Family = "C09" -> C09Requests \cup C09TypeRequests \cup C09GroupRequests
               [] Family = "C10" -> C10Requests [] Family = "C11" -> C11Requests
 
 Init == /\ pc = "idle" /\ req = (CHOOSE r \in Requests : TRUE) /\ bodyRead = FALSE /\ saw = NoSaw
